@@ -1,6 +1,7 @@
 package sim
 
 import (
+	"math/big"
 	"time"
 )
 
@@ -127,16 +128,19 @@ func crlListOK(s *CRLSpec, issuerHasCRLSign bool, now time.Time) string {
 }
 
 // crlEntriesClass is the C10 reference interpreter over base then delta entries.
-func crlEntriesClass(base, delta *CRLSpec, hasST bool, st time.Time) string {
+func crlEntriesClass(base, delta *CRLSpec, serial *big.Int, hasST bool, st time.Time) string {
+	// matching is decided by the serial number in the list, not by what the
+	// list was generated for: a cached CRL may be consulted for another
+	// certificate of the same CA
 	var m []CRLEntrySpec
 	for _, e := range base.Entries {
-		if e.Match {
+		if e.Serial != nil && serial != nil && e.Serial.Cmp(serial) == 0 {
 			m = append(m, e)
 		}
 	}
 	if delta != nil {
 		for _, e := range delta.Entries {
-			if e.Match {
+			if e.Serial != nil && serial != nil && e.Serial.Cmp(serial) == 0 {
 				m = append(m, e)
 			}
 		}
@@ -199,7 +203,7 @@ func crlEntriesClass(base, delta *CRLSpec, hasST bool, st time.Time) string {
 }
 
 // crlBundleClass classifies a delivered bundle (Appendix A.1).
-func crlBundleClass(base, delta *CRLSpec, certHasFreshest bool, issuerHasCRLSign bool, hasST bool, st time.Time, now time.Time) string {
+func crlBundleClass(base, delta *CRLSpec, serial *big.Int, certHasFreshest bool, issuerHasCRLSign bool, hasST bool, st time.Time, now time.Time) string {
 	if base == nil {
 		return ClNone
 	}
@@ -235,7 +239,7 @@ func crlBundleClass(base, delta *CRLSpec, certHasFreshest bool, issuerHasCRLSign
 			return ClNone
 		}
 	}
-	cl := crlEntriesClass(base, delta, hasST, st)
+	cl := crlEntriesClass(base, delta, serial, hasST, st)
 	if either && cl != ClDontCare {
 		// at the boundary instant the bundle may count as expired (NONE) or not
 		return ClEither
